@@ -71,6 +71,13 @@ CHECKS.update({
             "Const-evaluability is a rustc fact no deductive verifier decides; equality for ALL inputs is inherited from the X proofs.",
             "BOUNDED stand-in on sampled inputs for const-evaluability; trusted: rustc const evaluator, determinism of safe integer code; all-input equality relies on the Kani proofs of C01-C08/C13."),
 })
+CHECKS.update({
+    "C19": ("proof", "4.1, 5 C19", "Kani proof of Debug::fmt through the real core::fmt ({:?}) + exhaustive native execution stand-in ({:#?})",
+            "For debug-enabled corpus structs the bytes written by the real Debug::fmt through the real core::fmt into a fixed sink are proved equal, for ALL raw values, to the text built by an independent formatter "
+            "from get_spec values (struct name, fields in declaration order, name: value); loops unwound to the longest possible text with unwinding assertions. {:#?} is NOT proved (CBMC blows up in PadAdapter): "
+            "stand-in = native execution of the real macro output for every raw value of bases <= 16 bits (both formats), labelled bounded in the evidence.",
+            "Proof part: structs listed in the evidence (quick: <= 12-bit bases; thorough: all debug corpus structs up to u32), core::fmt is INSIDE the proof. Stand-in part: exhaustive by execution for <= 16-bit bases, sampled above; not counted as proved. Trusted: rustc, Kani, CBMC, spec/dbgspec.rs."),
+})
 NOT_YET = {}
 
 
